@@ -38,6 +38,9 @@ def gen(ctx, W, n_per_kind, probes):
         # parameters added to the optimizer after it was built (add_param_group), several steps
         cases.append({'seed': r.randint(0, 10**5), 'model': 'lin', 'B': 6, 'sigma': 0.7, 'C': 0.4, 'clipping': clip, 'mode': mode, 'reduction': r.choice(['mean', 'sum']),
                       'scale': 1.0, 'shards': shards(r, W, 3, allow_empty=False), 'late_group': True})
+    # the distributed module handed to make_private already wrapped in a GradSampleModule
+    cases.append({'seed': r.randint(0, 10**5), 'model': 'lin', 'B': 6, 'sigma': 0.7, 'C': 0.4, 'clipping': 'flat', 'mode': 'hooks', 'reduction': r.choice(['mean', 'sum']),
+                  'scale': 1.0, 'shards': shards(r, W, 2, allow_empty=False), 'prewrapped': True})
     for i in range(probes):
         for clip, mode in KINDS:
             if clip == 'ghost':
